@@ -44,12 +44,15 @@ def trial(seed):
         return f
     s=Sched(seed); s.run([w(e1),w(e1),w(e2),w(e1)])
     return names, s.steps, e1.relation_name_counter
-import sys as _s
-if __name__!="__main__": _s.exit
+
+
 
 for seed in range(200):
-    names,steps,ctr=trial(seed); tot+=steps
-    if len(set(names))!=len(names): dup+=1
-    if ctr!=9: lost+=1
-    n2,_,_=trial(seed); assert n2==names
-print('steps',tot,'sec',time.time()-t,'dups',dup,'lost counter updates',lost, names[:3])
+
+if __name__ == "__main__":
+    t=time.time(); tot=0; dup=0
+    for seed in range(200):
+        names,steps,ctr=trial(seed); tot+=steps
+        if len(set(names))!=len(names): dup+=1
+        n2,s2,_=trial(seed); assert n2==names and s2==steps, "replay diverged"
+    print('steps',tot,'sec',round(time.time()-t,2),'runs with duplicate names',dup, names[:2])
